@@ -526,6 +526,8 @@ def _provably_equal(interp, a, b):
 def _m_reset_index(self, interp):
     def reset_index(drop=False, inplace=False, **kw):
         only_kw("frames.reset_index", kw)
+        if inplace:
+            raise Undecided("reset_index(inplace=True)")
         if isinstance(self.axis.root, KeySpace) and not drop:
             # groupby result: keys become columns (they already are, as key constants)
             _use("groupby(...).agg(...).reset_index(): key tuples become columns; one row per present group, sorted by key")
@@ -539,7 +541,12 @@ def _m_reset_index(self, interp):
 
 
 def _m_copy(self, interp):
-    return lambda deep=True: self._new()
+    def copy(deep=True):
+        if deep is not True:
+            raise Undecided("copy(deep=False) aliases the data")
+        return self._new()
+
+    return copy
 
 
 def _m_shape(self, interp):
@@ -1462,6 +1469,8 @@ class GroupSize:
 
             def reset_index(drop=False, name=0, **kw):
                 only_kw("frames.reset_index", kw)
+                if drop:
+                    raise Undecided("groupby.size().reset_index(drop=True) loses the group keys")
                 # an unnamed size() Series becomes column 0 (pandas), or `name` if given
                 f = self.frame._new(index=("range", self.frame.axis.name))
                 f.cols[name] = f.cols.pop("size")
